@@ -88,7 +88,7 @@ def _solve_worker(job):
     out = {'idx': idx, 'res': 'unknown', 'backend': '', 'detail': ''}
     try:
         s = z3.Solver()
-        s.set('timeout', z3_ms)
+        s.set('timeout', z3_ms if expect == 'unsat' else min(z3_ms, 5000))
         s.from_string(smt2)
         r = s.check()
         out['backend'] = 'z3-' + z3.get_version_string()
@@ -98,6 +98,21 @@ def _solve_worker(job):
             out['res'] = 'unsat'
         else:
             out['detail'] = 'z3: ' + s.reason_unknown()
+            if expect == 'sat':
+                # satisfiability under quantified hypotheses is not decidable by the solver: re-check the
+                # quantifier-free part of the top-level conjunction (recorded in the backend string)
+                s2 = z3.Solver()
+                s2.set('timeout', min(z3_ms, 5000))
+                fs = z3.parse_smt2_string(smt2)
+                conj = []
+                for f in fs:
+                    conj.extend(_flatten_and(f))
+                qf = [c for c in conj if not _has_quantifier(c)]
+                s2.add(*qf)
+                if s2.check() == z3.sat:
+                    out['res'] = 'sat'
+                    out['backend'] += ' (quantifier-free part: %d of %d conjuncts)' % (len(qf), len(conj))
+                    cvc5_s = 0
     except Exception as e:  # z3 internal error: treat as unknown
         out['detail'] = 'z3 exception: %r' % (e,)
     if out['res'] == 'unknown' and cvc5_s > 0:
@@ -108,6 +123,29 @@ def _solve_worker(job):
         out['detail'] += ' | cvc5: ' + d2
     out['seconds'] = time.time() - t0
     return out
+
+
+def _flatten_and(f):
+    if z3.is_and(f):
+        out = []
+        for c in f.children():
+            out.extend(_flatten_and(c))
+        return out
+    return [f]
+
+
+def _has_quantifier(f, _seen=None):
+    seen = set() if _seen is None else _seen
+    stack = [f]
+    while stack:
+        x = stack.pop()
+        if x.get_id() in seen:
+            continue
+        seen.add(x.get_id())
+        if z3.is_quantifier(x):
+            return True
+        stack.extend(x.children())
+    return False
 
 
 def run_cvc5(smt2: str, timeout_s: int, extra=()):
@@ -236,6 +274,7 @@ class Ctx:
         self.bounded: List[Dict[str, Any]] = []
         self.notes: List[str] = []
         self.replayers: Dict[str, Callable] = {}  # obligation-name prefix -> replay function(model, obl) -> dict|None
+        self.witness_search: Optional[Callable] = None  # () -> {'confirmed': bool, 'input': ...}: concrete search on the real code
         self.extra: Dict[str, Any] = {}
         self.t0 = time.time()
 
@@ -302,6 +341,7 @@ def finish(ctx: Ctx, checker_cmd: str) -> int:
         return 3
     discharge(ctx.obls)
     findings = load_known_findings()
+    _refute_unknowns(ctx)
     failed = [o for o in ctx.obls if o.status == 'failed']
     unknown = [o for o in ctx.obls if o.status == 'unknown']
     rc = 0
@@ -317,19 +357,24 @@ def finish(ctx: Ctx, checker_cmd: str) -> int:
             checker_bug = True
             continue
         kf = match_known(pid, o.name, findings)
-        rep = None
-        model = None
-        if o.query is not None:
-            try:
-                model = model_of(o)
-            except Exception:
-                model = None
-        replayer = ctx.replayers.get(o.name)
-        if replayer is not None:
-            try:
-                rep = replayer(model, o)
-            except Exception:
-                rep = {'confirmed': False, 'error': traceback.format_exc()}
+        rep = o.info.get('__replay__')
+        model = o.info.get('__model__')
+        if rep is None:
+            if o.query is not None:
+                try:
+                    model = model_of(o)
+                except Exception:
+                    model = None
+            replayer = ctx.replayers.get(o.name)
+            if replayer is not None:
+                try:
+                    rep = replayer(model, o)
+                except Exception:
+                    rep = {'confirmed': False, 'error': traceback.format_exc()}
+            if not (rep and rep.get('confirmed')) and ctx.witness_search is not None:
+                w = _search_once(ctx)
+                if w is not None:
+                    rep = w
         if kf is not None and (rep is None or kf.get('needs_confirmed', False) is False or rep.get('confirmed')):
             known_hits.append((kf, o))
             lines.append('KNOWN-FINDING: property=%s %s [%s]' % (pid, kf['text'], o.name))
@@ -340,9 +385,9 @@ def finish(ctx: Ctx, checker_cmd: str) -> int:
             'property': pid,
             'obligation': o.name,
             'kind': o.kind,
-            'info': _jsonable(o.info),
+            'info': _jsonable({k: v for k, v in o.info.items() if not k.startswith('__')}),
             'solver': o.backend,
-            'solver_output': 'sat (counter-model exists): the negated obligation is satisfiable'
+            'solver_output': o.info.get('__solver_output__', 'sat (counter-model exists): the negated obligation is satisfiable')
             if o.query is not None
             else o.detail,
             'counter_model': _model_dict(model),
@@ -422,7 +467,7 @@ def finish(ctx: Ctx, checker_cmd: str) -> int:
     if cross is not None:
         ev['coverage']['cross_check'] = cross
     for k, v in ctx.extra.items():
-        if k not in ('cross_check', 'trusted_base'):
+        if k not in ('cross_check', 'trusted_base') and not k.startswith('__'):
             ev['coverage'][k] = _jsonable(v)
     os.makedirs(os.path.join(VERIF, 'evidence'), exist_ok=True)
     with open(os.path.join(VERIF, 'evidence', pid + '.json'), 'w') as f:
@@ -434,6 +479,49 @@ def finish(ctx: Ctx, checker_cmd: str) -> int:
         % (pid, ctx.tier, n_solver, n_ok, len(failed), len(unknown), len(known_hits), time.time() - ctx.t0, rc)
     )
     return rc
+
+
+def _search_once(ctx):
+    if '__witness__' not in ctx.extra:
+        try:
+            ctx.extra['__witness__'] = ctx.witness_search()
+        except Exception:
+            ctx.extra['__witness__'] = {'confirmed': False, 'error': traceback.format_exc()}
+    w = ctx.extra['__witness__']
+    return w if (w and w.get('confirmed')) else None
+
+
+def _refute_unknowns(ctx):
+    """An obligation the solver leaves `unknown` is undecided, not violated.  Try to turn it into a sound refutation:
+    (1) drop the quantified hypotheses (fewer hypotheses: any model is only a CANDIDATE), solve, and replay the
+    candidate on the real code; (2) run the property's concrete witness search on the real code.  Only a witness that
+    the real code confirms turns the obligation into `failed`; otherwise it stays `unknown` (exit 2)."""
+    for o in ctx.obls:
+        if o.status != 'unknown' or o.expect != 'unsat' or o.query is None:
+            continue
+        rep = None
+        model = None
+        replayer = ctx.replayers.get(o.name)
+        if replayer is not None:
+            try:
+                conj = _flatten_and(o.query)
+                goal = conj[-1]
+                qf = [c for c in conj[:-1] if not _has_quantifier(c)] + [goal]
+                s = z3.Solver()
+                s.set('timeout', 10000)
+                s.add(*qf)
+                if s.check() == z3.sat:
+                    model = s.model()
+                    rep = replayer(model, o)
+            except Exception:
+                rep = {'confirmed': False, 'error': traceback.format_exc()}
+        if not (rep and rep.get('confirmed')) and ctx.witness_search is not None:
+            rep = _search_once(ctx)
+        if rep and rep.get('confirmed'):
+            o.status = 'failed'
+            o.info['__replay__'] = rep
+            o.info['__model__'] = model
+            o.info['__solver_output__'] = 'unknown (%s); refuted by a witness confirmed on the real code' % o.detail[:200]
 
 
 def _count(it):
